@@ -381,6 +381,9 @@ impl Interval {
                 end,
                 stride: self.stride.gcd(rhs.stride),
             }
+        } else if self.start == self.end && rhs.start == rhs.end {
+            // The sum of two constants is a constant, even if the addition wraps around.
+            (&self.start + &rhs.start).into()
         } else {
             Interval::new_top(self.bytesize())
         }
@@ -398,6 +401,9 @@ impl Interval {
                 end,
                 stride: self.stride.gcd(rhs.stride),
             }
+        } else if self.start == self.end && rhs.start == rhs.end {
+            // The difference of two constants is a constant, even if the subtraction wraps around.
+            (&self.start - &rhs.start).into()
         } else {
             Interval::new_top(self.bytesize())
         }
@@ -418,6 +424,10 @@ impl Interval {
         let val4 = self.end.signed_mult_with_overflow_flag(&rhs.end).unwrap();
         if val1.1 || val2.1 || val3.1 || val4.1 {
             // (signed) overflow during multiplication
+            if self.start == self.end && rhs.start == rhs.end {
+                // The product of two constants is a constant, even if the multiplication wraps around.
+                return val1.0.into();
+            }
             return Interval::new_top(self.bytesize());
         }
         let min = signed_min(&val1.0, &signed_min(&val2.0, &signed_min(&val3.0, &val4.0)));
